@@ -68,7 +68,7 @@ theorem vstep_spec {cfg : Cfg} {sh sh' : Shared} {i : Nat} {v v' : VThread}
     (h : vstep cfg sh i v = some (sh', v')) :
     (v.pc = .start ∧ sh' = sh ∧
       ((∃ e, sh.cache.lookup v.val = some e ∧ hitOk cfg e sh.now = true ∧
-          v' = { v with now := sh.now, gen := sh.gen, pc := .done, res := some true }) ∨
+          v' = { v with now := sh.now, gen := sh.gen, pc := .hit, he := some e }) ∨
         v' = { v with now := sh.now, gen := sh.gen, pc := .miss })) ∨
     (v.pc = .miss ∧ connFree cfg sh = true ∧
       ((∃ r, candidate sh.db v.val = some r ∧
@@ -85,7 +85,11 @@ theorem vstep_spec {cfg : Cfg} {sh sh' : Shared} {i : Nat} {v v' : VThread}
         ((cfg.genGuard = true → v.gen = sh.gen) ∧
           sh' = { sh with cache := insertCache cfg sh.cache v.val { info := r, cexp := v.now + cfg.ttl } }))) ∨
     (v.pc = .ins ∧ sh' = { sh with conn := none } ∧ v' = { v with pc := .done, res := some true }) ∨
-    (v.pc = .norow ∧ sh' = sh ∧ v' = { v with pc := .done, res := some false }) := by
+    (v.pc = .norow ∧ sh' = sh ∧ v' = { v with pc := .done, res := some false }) ∨
+    (v.pc = .hit ∧ ∃ e, v.he = some e ∧ v' = { v with pc := .done, res := some true } ∧
+      ((cfg.hitTouch = true ∧
+          sh' = { sh with cache := setKey sh.cache v.val { e with cexp := v.now + cfg.ttl } }) ∨
+        sh' = sh)) := by
   unfold vstep at h
   split at h
   · -- start
@@ -110,6 +114,25 @@ theorem vstep_spec {cfg : Cfg} {sh sh' : Shared} {i : Nat} {v v' : VThread}
       have h2 := congrArg Prod.snd h
       simp only at h1 h2
       exact ⟨h1.symm, Or.inr h2.symm⟩
+  · -- hit
+    rename_i hpc
+    right; right; right; right; right; right
+    split at h
+    · rename_i e he
+      simp only [Option.some.injEq] at h
+      unfold vHit at h
+      split at h
+      · rename_i hc
+        have h1 := congrArg Prod.fst h
+        have h2 := congrArg Prod.snd h
+        simp only at h1 h2
+        simp at hc
+        exact ⟨hpc, e, he, h2.symm, Or.inl ⟨hc.1, h1.symm⟩⟩
+      · have h1 := congrArg Prod.fst h
+        have h2 := congrArg Prod.snd h
+        simp only at h1 h2
+        exact ⟨hpc, e, he, h2.symm, Or.inr h1.symm⟩
+    · simp at h
   · -- miss
     rename_i hpc
     right; left
@@ -190,7 +213,7 @@ theorem vstep_spec {cfg : Cfg} {sh sh' : Shared} {i : Nat} {v v' : VThread}
     exact ⟨hpc, h1.symm, h2.symm⟩
   · -- norow
     rename_i hpc
-    right; right; right; right; right
+    right; right; right; right; right; left
     simp only [Option.some.injEq] at h
     have h1 := congrArg Prod.fst h
     have h2 := congrArg Prod.snd h
